@@ -16,7 +16,7 @@ type Clock struct {
 func newClock(w *World, r *Rng) *Clock {
 	// a seed-chosen instant in 2023..2033 (above the snowflake epoch, 2010)
 	base := int64(1672531200) + int64(r.Intn(10*365*24*3600))
-	return &Clock{w: w, ns: base*1e9 + int64(r.Intn(1e9)), Tick: 1000}
+	return &Clock{w: w, ns: base*1e9 + int64(r.Intn(1e9)), Tick: 0}
 }
 
 // NowNS returns the current simulated time without advancing it.
